@@ -17,6 +17,7 @@ Call format (both drivers):
 from __future__ import annotations
 
 import gc
+import sys as _sys
 import weakref
 
 from . import gate
@@ -269,14 +270,66 @@ def sched_chooser(schedule):
     return choose
 
 
-def run_sched(case, chooser=None, want_choices=False):
+def plan_chooser(plan):
+    """Line-level runs.  plan = list of segments ['call', t] (thread t runs one whole API call: from its 'call'
+    gate up to its next 'call' gate / its end) or ['steps', t, k] (thread t runs k decisions); a segment is
+    abandoned when its thread is done or not enabled.  'start' decisions are forced and consume nothing.
+    After the plan: stay on the last thread while it is enabled, else the first enabled one."""
+    st = dict(i=0, used=0, last=None)
+
+    def choose(step, en, ctl):
+        for n in en:
+            if ctl.th[n]['op'] == 'start':
+                return n
+        while st['i'] < len(plan):
+            seg = plan[st['i']]
+            n = f't{seg[1]}'
+            rec = ctl.th.get(n)
+            over = rec is None or rec['state'] == 'done' or n not in en
+            if not over:
+                if seg[0] == 'steps':
+                    over = st['used'] >= seg[2]
+                else:
+                    over = st['used'] > 0 and rec['op'] == 'call'
+            if over:
+                st['i'] += 1
+                st['used'] = 0
+                continue
+            st['used'] += 1
+            st['last'] = n
+            return n
+        n = st['last'] if st['last'] in en else en[0]
+        st['last'] = n
+        return n
+    return choose
+
+
+def run_line(case):
+    """The gated threads of run_sched with a gate at EVERY source line of aiuti/filelock.py and at the
+    construction of a thread lock; schedule = case['plan'] (see plan_chooser).  obs: per-thread results, occupancy
+    log, end state, and the end-of-run observation: is_locked of every object and a fresh non-blocking acquire by
+    a probe (the harness' main thread) once all threads have finished; 'vsteps' = decisions taken per thread."""
+    return run_sched(dict(case, max_steps=case.get('max_steps', 6000)), chooser=plan_chooser(case.get('plan', [])), line=True)
+
+
+def run_sched(case, chooser=None, want_choices=False, line=False):
     """obs: trace [[t, opcode] | ['adv', ticks]], per-thread results, occupancy log
     [[t, entering, inside_after, is_locked]], end state, final pending op per thread."""
     progs = case['progs']
     nT = len(progs)
     ctl = gate.Ctl(chooser or sched_chooser(case.get('schedule', [])), max_steps=case.get('max_steps', 600))
     env = Env(ctl, case.get('faults', ()))
+    env.gate_mklock = bool(line)
     F = env.install()
+    fname = F.__file__
+
+    def tracer(frame, event, arg):
+        if frame.f_code.co_filename != fname:
+            return None
+        if event == 'line':
+            ctl.gate('line')
+        return tracer
+
     locks = []
     try:
         locks = make_locks(F, env, case['objs'])
@@ -335,7 +388,16 @@ def run_sched(case, chooser=None, want_choices=False):
                         else:
                             results[t].append(caller.do(t, call))
                         i += 1
-            return body
+            if not line:
+                return body
+
+            def traced():
+                _sys.settrace(tracer)
+                try:
+                    body()
+                finally:
+                    _sys.settrace(None)
+            return traced
 
         for t in range(nT):
             ctl.spawn(f't{t}', worker(t))
@@ -354,6 +416,22 @@ def run_sched(case, chooser=None, want_choices=False):
         bad_threads = [n for n in ctl.order if ctl.th[n]['exc'] is not None]
         obs = dict(trace=trace, results=results, occ=occ, end=res, final=final,
                    km=len(env.kernel_mismatch) + len(bad_threads))
+        if line:
+            # end-of-run observation by the (unmanaged) main thread: the gates are no-ops for it
+            obs['trace'] = []
+            obs['vsteps'] = [sum(1 for n, op in ctl.trace if n == f't{t}' and op != 'start') for t in range(nT)]
+            locked_end, probe = [False] * len(locks), False
+            if res == 'ok':
+                try:
+                    locked_end = [bool(lk.is_locked) for lk in locks]
+                    fresh = F.FileLock(env.path)
+                    probe = fresh.acquire(False) is True
+                    if probe:
+                        fresh.release()
+                except Exception:
+                    probe = False
+                obs['km'] = len(env.kernel_mismatch) + len(bad_threads)
+            obs['locked_end'], obs['probe'] = locked_end, probe
         if want_choices:
             obs['_choices'] = [(en, ch) for en, ch in ctl.choices]
             obs['_ops'] = [op for n, op in ctl.trace if n != 'adv']
